@@ -34,7 +34,7 @@ REQUIRED_CLAUSES = ['detect_file_format-on-a-pipe', 'expected_format-does-not-ch
 ASSUMPTIONS = ['signature predicates written from the property text and the layout comments, sharing no code with the inspectors',
                'F1: for text-like content the VMDK text-descriptor match is chunk dependent; vmdk in formats is DONT-CARE '
                'there when the content contains createType=", and must be absent when it does not']
-INTERPRETER_FLAGS = [[], ['-O'], [], ['-bb']]
+INTERPRETER_FLAGS = [[], ['-O'], ['-X', 'dev'], ['-bb']]
 SHARDS = {'quick': 8, 'thorough': 16}
 MIN_DISTINCT = {'quick': 1500, 'thorough': 20000}
 LEVEL_TEXT = ('Exploration with an independent signature oracle: all 2^9 signature subsets are overlaid on three '
@@ -236,9 +236,38 @@ def eval_detect(ctx, case):
                 pass
         feeder = threading.Thread(target=feed, daemon=True)
         feeder.start()
+    # the file name is handed over as a str, or as the other things open() takes for a name: a pathlib.Path, another
+    # os.PathLike, bytes, a str subclass, a path relative to the working directory
+    import zlib
+    how = ('str', 'pathlib', 'str', 'pathlike', 'bytes', 'str-subclass', 'str', 'relative')[zlib.crc32(content[:64] + bytes([len(content) % 251])) % 8]
+    name_arg, old_cwd = path, None
+    if how == 'pathlib':
+        import pathlib
+        name_arg = pathlib.Path(path)
+    elif how == 'pathlike':
+        class _P:
+            def __init__(self, p):
+                self.p = p
+
+            def __fspath__(self):
+                return self.p
+        name_arg = _P(path)
+    elif how == 'bytes':
+        name_arg = os.fsencode(path)
+    elif how == 'str-subclass':
+        name_arg = type('PathStr', (str,), {})(path)
+    elif how == 'relative':
+        old_cwd = os.getcwd()
+        os.chdir(d)
+        name_arg = 'img'
+    ctx.h('detect_file_format file name given as', how)
     before = len(os.listdir('/proc/self/fd'))
     try:
-        r = F.detect_file_format(path)
+        try:
+            r = F.detect_file_format(name_arg)
+        finally:
+            if old_cwd is not None:
+                os.chdir(old_cwd)
         got = str(r) if r is not None else None
     except F.ImageFormatError:
         got = 'IFE'
